@@ -304,6 +304,7 @@ func minInt(a, b int) int {
 }
 
 func checkC12(c *mc.Ctx) {
+	checkSpecConstants(c, "pes", specConstsPES())
 	c.Ev.Level = "exploration"
 	c.Ev.Rule = "bounded-exhaustive codec input space: all 256 stream ids; all 2176 structural optional-header shapes; every field over its boundary alphabet alone (all 256 trick bytes, all 128 copy-info values, all 2^16 CRC values, 33-bit values: 0, every single bit, all ones, alternating); header stuffing 0..32; PES_packet_length classes; timestamps: stratified 2^25 (quick) or all 2^33 (thorough) values through parse and write; Duration() against exact rational arithmetic; distinct_nontrivial = distinct model headers / values"
 	c.Ev.Assumptions = append(c.Ev.Assumptions, "pack_header_field_flag=1 is outside the decode domain; CRC, pack header and header stuffing are outside the encode domain (not writable, documented TODO)",
